@@ -80,9 +80,10 @@ def check_model(F, res, rule="M", with_fuel=True):
         got = sig(fn)
         if leaf == "bump" and not bump_is_mover:
             continue        # bump delegates to another mover: checked as a wrapper below
+        # compared as sets: reading a field once into a local or twice in place is the same access pattern
         res.ob(rule, "leaf/%s/field-accesses" % leaf,
-               "Parser::%s touches exactly the Parser fields the model assumes: %s" % (leaf, nofuel(want)),
-               nofuel(got) == nofuel(want), where=fn.loc(), how="found %s" % nofuel(got))
+               "Parser::%s touches exactly the Parser fields the model assumes: %s" % (leaf, sorted(set(nofuel(want)))),
+               set(nofuel(got)) == set(nofuel(want)), where=fn.loc(), how="found %s" % sorted(set(nofuel(got))))
     for mv in movers(F):
         if mv != P + "bump":
             check_mover(F, res, rule, mv, with_fuel)
@@ -110,6 +111,7 @@ def check_model(F, res, rule="M", with_fuel=True):
     dn = FL.Defs(nth)
     ok_get = False
     default_eof = False
+    default_eof_match = kind_match = False
     for b, t in nth.calls():
         c = callee(t) or ""
         if c.endswith("[T]::get") or c.endswith("]>::get"):
@@ -130,10 +132,41 @@ def check_model(F, res, rule="M", with_fuel=True):
                 ok_get = sorted(srcs) == ["arg2", "field:pos"]
         if c.endswith("Option::<T>::map_or"):
             default_eof = FL.kind_of_operand(nth, dn, t["args"][1]) == "EOF"
+    # the same with a `match` instead of map_or: None arm returns EOF, Some arm returns the payload's `kind`
+    for b in sorted(nth.reachable()):
+        t = nth.term(b)
+        if t["k"] != "switch":
+            continue
+        l = op_local(t["op"])
+        o = dn.origin(l) if l is not None else {}
+        if not (o.get("k") == "rv" and o["rv"]["k"] == "discr" and "Option" in o["rv"]["of"]):
+            continue
+        src = dn.origin_place(o["rv"]["place"])
+        if not (src.get("k") == "call" and ((callee(src["t"]) or "").endswith("[T]::get") or (callee(src["t"]) or "").endswith("]>::get"))):
+            continue
+        for v, tgt in t["targets"] + [["otherwise", t["otherwise"]]]:
+            seen_b, st_ = {tgt}, [tgt]
+            while st_:
+                x = st_.pop()
+                for s_ in nth.blocks[x]["stmts"]:
+                    if s_["k"] == "assign" and s_["place"]["l"] == 0 and not s_["place"]["p"]:
+                        rv_ = s_["rv"]
+                        if rv_["k"] == "use":
+                            if FL.kind_of_operand(nth, dn, rv_["op"]) == "EOF" or (rv_["op"].get("k") or {}).get("variant") == "EOF":
+                                default_eof_match = True
+                            pl_ = op_place(rv_["op"])
+                            if pl_ and pl_["p"] and isinstance(pl_["p"][-1], dict) and pl_["p"][-1].get("n") == "kind":
+                                kind_match = True
+                        if rv_["k"] == "agg" and rv_.get("variant") == "EOF":
+                            default_eof_match = True
+                for y in nth.succ(x):
+                    if y not in seen_b and nth.term(x)["k"] != "switch":
+                        seen_b.add(y)
+                        st_.append(y)
     res.ob(rule, "nth/index-is-pos-plus-lookahead", "Parser::nth reads tokens[pos + lookahead]", ok_get,
            where=nth.loc(), how="index operand sources matched" if ok_get else "index is not pos + lookahead")
     res.ob(rule, "nth/eof-past-the-end", "Parser::nth yields SyntaxKind::EOF exactly when there is no such token",
-           default_eof, where=nth.loc(), how="map_or default is EOF" if default_eof else "map_or default is not EOF")
+           default_eof or default_eof_match, where=nth.loc(), how="the None case yields EOF" if (default_eof or default_eof_match) else "the None case does not yield EOF")
     clos = [F.fns[c] for c in F.closures_of(nth.path)]
     kind_only = False
     for cf in clos:
@@ -142,8 +175,8 @@ def check_model(F, res, rule="M", with_fuel=True):
             pl = op_place(rets[0]["rv"]["op"])
             if pl and pl["p"] and isinstance(pl["p"][-1], dict) and pl["p"][-1].get("n") == "kind":
                 kind_only = True
-    res.ob(rule, "nth/returns-token-kind", "the closure in Parser::nth returns the token's `kind` field", kind_only,
-           where=nth.loc(), how="closure returns .kind" if kind_only else "closure shape not recognised")
+    res.ob(rule, "nth/returns-token-kind", "Parser::nth returns the `kind` field of the token it found", kind_only or kind_match,
+           where=nth.loc(), how="returns .kind" if (kind_only or kind_match) else "shape not recognised")
     panics = [(b, t) for b, t in nth.calls() if t["target"] is None]
     gfuel = []
     for b, t in panics:
